@@ -104,7 +104,7 @@ Definition conc_plain (opc : Z) (v : env) (fr : frame) (w : world) : plain * wor
     let l := c mod U64 in
     if l =? 0 then ok0
     else if 4096 <? l then unknown_if true
-    else let src := if b <? U64 then skipn (Z.to_nat b) (v_code v) else [] in
+    else let src := if b <? U64 then zskipn b (v_code v) else [] in
          let bs := firstn (Z.to_nat l) (src ++ repeat 0 (Z.to_nat l)) in
          (POk [] pc 0, write_mem w d (a mod U64) bs)
   else if opc =? 62 then                                                     (* RETURNDATACOPY *)
